@@ -82,6 +82,18 @@ func (h OperatorHooksWrapper) AfterOperatorKeyRemovalInitiated(
 	consAddr := key.ToConsAddr()
 	if chainID == avstypes.ChainIDWithoutRevision(ctx.ChainID()) {
 		_, found := h.keeper.GetExocoreValidator(ctx, consAddr)
+		if !found {
+			// the key being removed is not validating. however, the operator may still be
+			// validating with the key it replaced earlier in this epoch (the validator set only
+			// changes at the end of the epoch). in that case the opt out has to wait for the
+			// unbonding period like any other, so that the old key stays slashable.
+			hasPrevKey, prevKey, _ := h.keeper.operatorKeeper.GetOperatorPrevConsKeyForChainID(
+				ctx, operator, chainID,
+			)
+			if hasPrevKey {
+				_, found = h.keeper.GetExocoreValidator(ctx, prevKey.ToConsAddr())
+			}
+		}
 		if found {
 			h.keeper.SetOptOutInformation(ctx, operator)
 		} else {
